@@ -225,7 +225,8 @@ class MailboxData(MailboxDataInterface[Message]):
                               wait_on: Event | None = None) -> SelectedMailbox:
         if wait_on is not None:
             either_event = wait_on.or_event(self._updated)
-            await either_event.wait()
+            if selected.mod_sequence == self._mod_sequences.highest:
+                await either_event.wait()
         mod_sequence = selected.mod_sequence
         selected.mod_sequence = self._mod_sequences.highest
         if mod_sequence is None:
